@@ -117,7 +117,7 @@ func (s C01) Events(env world.Env, mm mc.Model) []string {
 	}
 	// a fourth account, not a registered provider: only it can meet the file when it is full (replication 3)
 	evs = append(evs, "Proof:P4:f1:valid", "Proof:P4:f1:otherAtChallenged", "Proof:P4:f1:broken")
-	// the same account signing with the capital spelling of its address (a separate prover identity on this chain)
+	// the same account signing with the capital spelling of its address
 	evs = append(evs, "Proof:P4^:f1:valid", "Proof:P4^:f1:otherAtChallenged", "Proof:P4^:f1:broken")
 	evs = append(evs, "Proof:P3:f0:valid", "AttReq:P1", "AttReq:P3")
 	for _, x := range c01Provers {
@@ -186,7 +186,7 @@ func c01Snapshot(w *world.World, ctx sdk.Context, start int64) c01Snap {
 	s.file, s.found = getFile(w, ctx, c01F1.merkle, w.A("U").Bech, start)
 	for _, p := range w.App.StorageKeeper.GetAllProofs(ctx) {
 		if bytes.Equal(p.Merkle, c01F1.merkle) {
-			s.proofs[p.Prover] = p
+			s.proofs[canonAddr(p.Prover)] = p // by account, whatever spelling the record carries
 		}
 	}
 	s.dump = w.DumpStore(ctx, "storage")
@@ -228,10 +228,8 @@ func (C01) Apply(env world.Env, mm mc.Model, ev string) mc.Step {
 		// rewards stay with each file's own provers: for two paid accounts x, y the ratio of their payouts is at most
 		// (total size of the files x has ever validly proven) / (size of the smallest file y has ever validly proven)
 		sizes := func(x string) (max, min int64) {
-			for _, sp := range []string{x, x + "^"} { // each spelling of the address is a prover seat of its own
-				if m.Proven[sp] {
-					max, min = max+int64(len(c01F1.data)), int64(len(c01F1.data))
-				}
+			if m.Proven[x] {
+				max, min = int64(len(c01F1.data)), int64(len(c01F1.data))
 			}
 			if m.Proven2 == x {
 				max += int64(len(c01F2.data))
@@ -259,7 +257,7 @@ func (C01) Apply(env world.Env, mm mc.Model, ev string) mc.Step {
 			a := w.A(x).Bech
 			if after[a].AmountOf("ujkl").GT(before[a].AmountOf("ujkl")) {
 				st.Exercised = append(st.Exercised, "reward-paid")
-				if !m.Proven[x] && !m.Proven[x+"^"] && m.Proven2 != x {
+				if !m.Proven[x] && m.Proven2 != x {
 					vs = append(vs, viol("no-reward-without-valid-proof", "paid-never-proven",
 						"%s was paid %s ujkl at the reward block of height %d but never had a valid proof accepted", x,
 						after[a].AmountOf("ujkl").Sub(before[a].AmountOf("ujkl")), env.Ctx().BlockHeight()))
@@ -273,14 +271,15 @@ func (C01) Apply(env world.Env, mm mc.Model, ev string) mc.Step {
 			st.Outcome = "ok"
 		}
 	case "Proof":
-		x := w.A(strings.TrimSuffix(p[1], "^"))
-		xs := c01Spelling(w, p[1]) // the sender string of the message: the account's address, in capitals for "P4^"
+		who := strings.TrimSuffix(p[1], "^") // the account; "P4^" is account P4 signing with the capital spelling of its address
+		x := w.A(who)
+		xs := c01Spelling(w, p[1])
 		before := c01Snapshot(w, env.Ctx(), m.Start)
-		listed := before.found && proverListed(before.file, xs)
+		listed := before.found && acctListed(before.file, x.Addr)
 		full := before.found && int64(len(before.file.Proofs)) >= before.file.MaxProofs && !listed
 		c := int64(0)
 		if listed {
-			c = before.proofs[xs].ChunkToProve
+			c = before.proofs[x.Bech].ChunkToProve
 		}
 		merkle := c01F1.merkle
 		item, hl, toProve, valid := c01Payload(p[3], c)
@@ -307,7 +306,7 @@ func (C01) Apply(env world.Env, mm mc.Model, ev string) mc.Step {
 			st.Exercised = append(st.Exercised, "valid-proof")
 			if ok {
 				st.Outcome = "ok"
-				m.Proven[p[1]] = true
+				m.Proven[who] = true
 			}
 		} else {
 			st.Exercised = append(st.Exercised, "invalid-proof")
@@ -316,29 +315,29 @@ func (C01) Apply(env world.Env, mm mc.Model, ev string) mc.Step {
 			}
 			if !storeEqual(before.dump, after.dump) {
 				why := "store-changed"
-				if !listed && after.found && proverListed(after.file, xs) {
+				if !listed && after.found && acctListed(after.file, x.Addr) {
 					why = "sender-registered-before-verification"
 				}
 				vs = append(vs, viol("invalid-proof-changes-nothing", why, "%s (challenge %d, response %q) changed the storage store: %v", ev, c, emsg, storeDiffKeys(before.dump, after.dump)))
 			}
 		}
 		// (b) prover list gains an account only by its own valid proof; (c) LastProven moves only then
-		for _, y := range append(append([]string{}, c01Provers...), "P4", "P4^") {
-			yb := c01Spelling(w, y)
-			was := before.found && proverListed(before.file, yb)
-			is := after.found && proverListed(after.file, yb)
-			if is && !was && !(y == p[1] && validHere && ok) {
+		for _, y := range append(append([]string{}, c01Provers...), "P4") {
+			yb := w.A(y).Bech
+			was := before.found && acctListed(before.file, w.A(y).Addr)
+			is := after.found && acctListed(after.file, w.A(y).Addr)
+			if is && !was && !(y == who && validHere && ok) {
 				who := "another-account-listed"
-				if y == p[1] {
+				if y == strings.TrimSuffix(p[1], "^") {
 					who = "sender-of-rejected-proof-listed"
 				}
 				vs = append(vs, viol("prover-status-only-by-valid-proof", who, "%s (payload %s): %s became a prover", ev, kind, y))
 			}
 			pb, hadb := before.proofs[yb]
 			pa, hada := after.proofs[yb]
-			if hada && (!hadb || pa.LastProven != pb.LastProven) && !(y == p[1] && validHere && ok) {
+			if hada && (!hadb || pa.LastProven != pb.LastProven) && !(y == who && validHere && ok) {
 				who := "another-account-credited"
-				if y == p[1] {
+				if y == strings.TrimSuffix(p[1], "^") {
 					who = "sender-of-rejected-proof-credited"
 				}
 				vs = append(vs, viol("credit-only-by-valid-proof", who, "%s (payload %s): proof record of %s credited (LastProven %d -> %d, had=%v)", ev, kind, y, pb.LastProven, pa.LastProven, hadb))
